@@ -231,8 +231,12 @@ func newWorld(o vWorldOpts) *vWorld {
 		w.cleanup = append(w.cleanup, func() { st.db.Close(); st.cacheDB.Close() })
 	}
 	w.rawMux = verifServiceMux(st)
-	w.mux = instrumentedwriter.NewLoggingHandler(w.rawMux, vIdentLogger{w})
+	w.mux = vWrapMux(w)
 	return w
+}
+
+func vWrapMux(w *vWorld) http.Handler {
+	return instrumentedwriter.NewLoggingHandler(w.rawMux, vIdentLogger{w})
 }
 
 // unsealDirect performs what tryLoadAndVerifySigners + main() do for a plaintext key.
